@@ -771,8 +771,14 @@ def _split_args(text):
 
 
 def _as_block(b):
+    """closure body as a loop body block; a one-line block is spread over three lines so that proof anchors can sit inside it."""
     b = b.strip()
-    return b if b.startswith('{') else '{ ' + b + ' }'
+    if not b.startswith('{'):
+        return '{\n            ' + b + '\n        }'
+    if '\n' not in b:
+        inner = b[1:-1].strip()
+        return '{\n            ' + inner + '\n        }'
+    return b
 
 
 def desugar_iter(body, qualname):
